@@ -80,6 +80,31 @@ theorem half_row_bound_eq (nrow ncol : Int) : half_row_bound nrow ncol = centre 
 theorem half_col_bound_eq (nrow ncol : Int) : half_col_bound nrow ncol = centre ncol := by
   simp only [half_col_bound, centre, Int.fdiv_eq_ediv_of_nonneg _ (by decide : (0 : Int) ≤ 2)] <;> omega
 
+/-- the diagonal predicates, evaluated on the exact `linspace(-1, 1, n)` fractions, are the model's sides -/
+theorem half_diag_right_eq (nrow ncol i j : Nat) :
+    half_diag_right_input (coordNum nrow i) (coordDen nrow) (coordNum ncol j) (coordDen ncol)
+      = inputSide .diagRight nrow ncol i j ∧
+    half_diag_right_target (coordNum nrow i) (coordDen nrow) (coordNum ncol j) (coordDen ncol)
+      = !inputSide .diagRight nrow ncol i j := by
+  simp only [inputSide]
+  generalize coordNum nrow i = xn, coordDen nrow = xd, coordNum ncol j = yn, coordDen ncol = yd
+  constructor <;>
+  · rw [Bool.eq_iff_iff]
+    simp only [half_diag_right_input, half_diag_right_target, inputSide, Int.mul_one, Int.zero_mul, Int.one_mul,
+      Int.mul_zero, decide_eq_true_eq, Bool.not_eq_true', decide_eq_false_iff_not] <;> omega
+
+theorem half_diag_left_eq (nrow ncol i j : Nat) :
+    half_diag_left_input (coordNum nrow i) (coordDen nrow) (coordNum ncol j) (coordDen ncol)
+      = inputSide .diagLeft nrow ncol i j ∧
+    half_diag_left_target (coordNum nrow i) (coordDen nrow) (coordNum ncol j) (coordDen ncol)
+      = !inputSide .diagLeft nrow ncol i j := by
+  simp only [inputSide]
+  generalize coordNum nrow i = xn, coordDen nrow = xd, coordNum ncol j = yn, coordDen ncol = yd
+  constructor <;>
+  · rw [Bool.eq_iff_iff]
+    simp only [half_diag_left_input, half_diag_left_target, inputSide, Int.mul_one, Int.zero_mul, Int.one_mul,
+      Int.mul_zero, decide_eq_true_eq, Bool.not_eq_true', decide_eq_false_iff_not] <;> omega
+
 /-! ## boolean mask algebra -/
 
 theorem gAnd_gNot (a b : Grid) : gAnd a (gNot b) = gAndNot a b := by
